@@ -1,0 +1,7 @@
+//go:build !verif
+
+package db
+
+// verifPoint marks a point where the /verif runtime-monitoring harness can perturb the schedule when the code is
+// built with the verif tag. It is a no-op in every other build.
+func verifPoint(string) {}
